@@ -2061,6 +2061,10 @@ class Executor:
         # 4. havoc
         if self.strict_unknown_calls:
             raise Inconclusive('unknown call %s' % key)
+        # an unknown call only havocs its return value; a callee whose whole effect is on its `&mut self`
+        # argument must therefore not be passed over silently (seeded change C10-9: `events.dedup()`)
+        if re.search(r'::(dedup|dedup_by|dedup_by_key|retain|retain_mut|sort|sort_by|sort_by_key|sort_unstable|sort_unstable_by|sort_unstable_by_key|reverse|drain|split_off|swap_remove|rotate_left|rotate_right)(::<.*>)?$', key):
+            raise Inconclusive('in-place mutation %s has no model: its effect on the argument cannot be ignored' % key)
         self.stats['havocs'] += 1
         self.havoc_log[key] = self.havoc_log.get(key, 0) + 1
         nm = 'hv!%s:%d:%d' % (fr.fn.text_hash, fr.bb, fr.visits.get(fr.bb, 0))
